@@ -76,6 +76,20 @@ fn to_tree(e: &Expression) -> Option<PTree> {
             Expression::Identifier(n) => PTree::Of(n.clone(), *c),
             _ => return None,
         },
+        // an n-ary group is read as the left-associated chain it stands for
+        Expression::BooleanGroup(op, items) if items.len() >= 2 => {
+            let op = match op {
+                BoolSym::And => BinOp::And,
+                BoolSym::Or => BinOp::Or,
+                _ => return None,
+            };
+            let mut it = items.iter();
+            let mut acc = to_tree(it.next()?)?;
+            for x in it {
+                acc = PTree::Bin(Box::new(acc), op, Box::new(to_tree(x)?));
+            }
+            acc
+        }
         Expression::BooleanExpression(l, op, r) => {
             let op = match op {
                 BoolSym::And => BinOp::And,
